@@ -188,6 +188,105 @@ class LexShape:
 
     def analyse(self, outs, base_conds):
         """outs: list of (state, kind, value).  Returns ordered list of atoms (kind,a,b,extra,negated)."""
+        sem = self.semantic(outs, base_conds)
+        if sem is not None:
+            seq, problems = sem
+            self.problems.extend(problems)
+            return seq
+        return self.structural(outs, base_conds)
+
+    def semantic(self, outs, base_conds):
+        """Finite-case evaluation of the comparator: every component comparison takes the values -2, -1, 0, 1, 2 (a verified
+        three-way scalar comparison only -1, 0, 1); for every assignment the one path whose conditions hold must return a value
+        whose sign is that of the first non-zero component, in the order the components are evaluated.  Returns (components,
+        problems), or None when a condition or a result is not built from component comparisons and constants."""
+        import itertools
+        paths = []
+        for st, kind, v in outs:
+            if kind == 'throw':
+                return None
+            paths.append((st.conds[base_conds:], v))
+        if not paths:
+            return None
+        order = []
+
+        def collect(t):
+            if atom_of(t) is not None:
+                if t not in order:
+                    order.append(t)
+                return
+            if isinstance(t, tuple):
+                for x in t:
+                    collect(x)
+        # order of evaluation: along the path on which every component is zero (the longest one)
+        for conds, v in sorted(paths, key=lambda p: -len(p[0])):
+            for c, _val in conds:
+                collect(c)
+            collect(v)
+        if not order:
+            return None
+
+        class Undef(Exception):
+            pass
+
+        def val(t, env):
+            if t in env:
+                return env[t]
+            if atom_of(t) is not None:
+                raise Undef()          # a component this assignment's path never evaluates
+            if not isinstance(t, tuple) or not t:
+                raise Undef()
+            if t[0] == 'k' and isinstance(t[1], int):
+                return t[1]
+            if t[0] == 'castto':
+                return val(t[2], env)
+            if t[0] == 'un' and t[1] == '-':
+                return -val(t[2], env)
+            if t[0] == 'un' and t[1] == '!':
+                return int(not val(t[2], env))
+            if t[0] == 'op' and len(t) == 4:
+                a, b = val(t[2], env), val(t[3], env)
+                r = {'==': a == b, '!=': a != b, '<': a < b, '>': a > b, '<=': a <= b, '>=': a >= b, '&&': bool(a) and bool(b),
+                     '||': bool(a) or bool(b), '+': a + b, '-': a - b, '*': a * b}.get(t[1])
+                if r is None:
+                    raise Undef()
+                return int(r)
+            raise Undef()
+        doms = [(-1, 0, 1) if atom_of(a)[0] == 'scalar' else (-2, -1, 0, 1, 2) for a in order]
+        if len(order) > 6:
+            return None
+        problems = []
+        sgn = lambda x: (x > 0) - (x < 0)
+        for values in itertools.product(*doms):
+            env = dict(zip(order, values))
+            hits = []
+            for conds, v in paths:
+                try:
+                    if all(bool(val(c, env)) == want for c, want in conds):
+                        hits.append(v)
+                except Undef:
+                    # the path tests something that is not a component comparison: not this evaluator's language
+                    if any(atom_of(c) is None and not _only_atoms(c) for c, _w in conds):
+                        return None
+                    continue
+            # a path that returns before evaluating a later component matches every value of that component: all hits must agree
+            want = next((sgn(x) for x in values if x != 0), 0)
+            got = set()
+            for v in hits:
+                try:
+                    got.add(sgn(val(v, env)))
+                except Undef:
+                    return None
+            if not hits:
+                problems.append(f'no path of the comparator is taken when its components are {values}')
+            elif got != {want}:
+                problems.append(f'with components {dict(zip(["c%d" % i for i in range(len(values))], values))} the comparator returns sign {sorted(got)}, '
+                                f'the first non-zero component has sign {want}: not a lexicographic combination for results of magnitude other than 1')
+            if len(problems) >= 2:
+                break
+        return [atom_of(a) for a in order], problems
+
+    def structural(self, outs, base_conds):
         paths = []
         for st, kind, v in outs:
             conds = st.conds[base_conds:]
@@ -230,6 +329,23 @@ class LexShape:
         if got != want or len(paths) != len(want):
             self.problems.append('comparator is not a lexicographic chain of its component comparisons')
         return seq
+
+
+def _only_atoms(t):
+    """t is built from component comparisons, integer constants and operators only"""
+    if atom_of(t) is not None:
+        return True
+    if not isinstance(t, tuple) or not t:
+        return False
+    if t[0] == 'k':
+        return True
+    if t[0] == 'castto':
+        return _only_atoms(t[2])
+    if t[0] == 'un':
+        return _only_atoms(t[2])
+    if t[0] == 'op' and len(t) == 4:
+        return _only_atoms(t[2]) and _only_atoms(t[3])
+    return False
 
 
 def check_scalar_compare(F, fid):
@@ -667,6 +783,14 @@ class KeyChecker:
                 if isinstance(v, tuple) and v and v[0] == 'global':
                     missing = [i for i in range(n) if not self.determined(f, i, st.conds)]
                     seen.setdefault('the constant ' + contracts.short(str(v[1])), []).extend(missing)
+                elif isinstance(v, tuple) and len(v) >= 4 and v[0] == 'call' and contracts.fn_simple(v[1]).startswith('get_') \
+                        and not contracts.fn_qname(v[1]).endswith('::get_qualified'):
+                    # a request answered by another request (re-entry summarised by the evaluator): every parameter is handed on
+                    # whole, or fixed by the path condition -- a parameter handed on as a projection (its main variant, its
+                    # linkage) makes requests that differ in the rest of it one request.  get_qualified is the documented
+                    # normal form and judged by the merge rule.
+                    missing = [i for i in range(n) if not any(determines(a, i) for a in v[3]) and not self.determined(f, i, st.conds)]
+                    seen.setdefault('the request ' + contracts.short(contracts.fn_qname(v[1])) + '(...)', []).extend(missing)
                 continue
             used = set()
             for e in ops:
@@ -679,7 +803,7 @@ class KeyChecker:
             inst = contracts.short(contracts.fn_qname(f['id'])) + sig + ' -> ' + tabs
             missing = sorted(set(missing))
             ck.check(self.R_guard, inst, not missing,
-                     f'on a path of {f["id"]} that yields {"" if tabs.startswith("the constant") else "an element of "}{tabs}, parameter(s) '
+                     f'on a path of {f["id"]} that yields {"" if tabs.startswith(("the constant", "the request")) else "an element of "}{tabs}, parameter(s) '
                      f'{[f["params"][i]["name"] or i for i in missing]} occur in no key of that path and the path '
                      f'condition does not fix them to one value: requests differing only there share a node',
                      loc=f['loc'], fn=f['id'])
